@@ -32,6 +32,9 @@ def bounds(tier):
 def cases(tier, seed):
     out = []
     for c in c07.cases(tier, seed):
+        if c.get("deep"):
+            out.append({"desc": c["desc"], "normal": c["normal"], "dyadic": True, "kind": "deep", "deep": True, "w": 8})
+            continue
         out.append({"desc": c["desc"], "normal": c["normal"], "dyadic": c["dyadic"], "kind": "mesh",
                     "stride": 1 if tier == "thorough" else 2, "w": c["w"], "sched_tasks": 4 if tier == "thorough" else 3})
     for nb in range(1, 8):
@@ -138,9 +141,66 @@ def ref_kind(ref, nm):
     return "general"
 
 
+def run_deep(case, workdir, rec):
+    """seven levels, twelve fields (long FAB headers): closed-form oracle, see c07.run_deep"""
+    from amr_kitchen.mandoline import Mandoline
+    import math
+    n = case["normal"]
+    desc = case["desc"]
+    path, ref = build(desc, workdir)
+    dh = h64([desc, n, "plt"])
+    cx, cy = [d_ for d_ in range(3) if d_ != n]
+    a, b = 3.0, 2.0
+    for pi, pos in enumerate(c07.deep_positions(ref, n)[::2]):
+        for serial in (True, False):
+            out = os.path.join(workdir, "deep%d_%d" % (pi, serial))
+            with vpool.controlled():
+                with poisoned(MODS, pi % 2):
+                    st, val = call(lambda: Mandoline(path, fields=["A", "p7"], serial=serial, verbose=0).slice(normal=n, pos=pos, outfile=out, fformat="plotfile"))
+            sub = {"normal": n, "pos": pos, "fields": ["A", "p7"], "serial": serial, "deep": True}
+            rec.exe([dh, pi, serial])
+            if st == "exc":
+                rec.fail("raised", sub, exc_text(val))
+                continue
+            try:
+                pp = ParsedPlot(out)
+            except (FormatError, OSError, ValueError, IndexError) as e:
+                rec.fail("output_unparsable", sub, exc_text(e))
+                continue
+            probs = [p_ for p_ in pp.problems(check_minmax=True, coords=True) if "duplicate index boxes" not in p_]
+            if probs:
+                rec.fail("output_invalid", sub, "; ".join(probs[:3]))
+            if pp.ndims != 2 or pp.fields != ["A", "p7"] or not same_value(pp.time, ref.time):
+                rec.fail("header", sub, "ndims %r fields %r time %r" % (pp.ndims, pp.fields, pp.time))
+                continue
+            for lv in range(pp.finest + 1):
+                s_ = ref.dx[lv][n]
+                meet = [bx for bx in ref.boxes[lv] if ref.geo_lo[n] + bx[0][n] * s_ <= pos <= ref.geo_lo[n] + (bx[1][n] + 1) * s_]
+                exp_fp = sorted(((bx[0][cx], bx[0][cy]), (bx[1][cx], bx[1][cy])) for bx in meet)
+                if sorted(pp.levels[lv].index) != exp_fp:
+                    rec.fail("footprints", sub, "level %d: boxes %r, the plane meets footprints %r" % (lv, sorted(pp.levels[lv].index), exp_fp))
+                    continue
+                q = (pos - ref.geo_lo[n]) / s_ - 0.5
+                kl, kr = math.floor(q), math.ceil(q)
+                klo, khi = min(bx[0][n] for bx in ref.boxes[lv]), max(bx[1][n] for bx in ref.boxes[lv])
+                if not (klo <= kl and kr <= khi):
+                    continue          # one-sided at this level: the single own sample, not the affine value
+                for bi in range(pp.levels[lv].nboxes):
+                    arr = pp.fab_at(lv, bi)[3]
+                    e = a + b * pos
+                    if not (np.abs(arr[..., 0] - e) <= 64 * EPS * (abs(a) + abs(b * pos)) * 4).all():
+                        rec.fail("values", dict(sub, level=lv), "level %d box %d: A is %r, a+b*pos = %r" % (lv, bi, arr[..., 0].ravel()[0], e))
+            oracle.taste_accepts(rec, sub, out, coords=True)
+            shutil.rmtree(out, ignore_errors=True)
+    rec.sample({"desc": {k: v for k, v in desc.items() if k != "levels"}, "normal": n, "deep": True})
+
+
 def run_case(case, workdir):
     from amr_kitchen.mandoline import Mandoline
     rec = Rec()
+    if case.get("deep"):
+        run_deep(case, workdir, rec)
+        return rec.result()
     desc = case["desc"]
     n = case["normal"]
     path, ref = build(desc, workdir)
